@@ -153,7 +153,16 @@ def base_case(cid):
     return dict(id=cid, kind="ok", bin=None, helper=True, code=0, args=[], env_mode="default", envs=[], cwd=None,
                 uid=None, gid=None, pg=None, io=[None, None, None], pre=0, prefail=None, inj=[], payload=b"",
                 wait2=False, trywait=False, fault=None, note="", shared=None, holdstdin=False, closed=None,
-                dump_id=None, head=None, followers=None, closures=None)
+                dump_id=None, head=None, followers=None, closures=None, decoy=False)
+
+
+def bin_abs(c, sh, decoy=False):
+    """Where the kernel looks the program up: a relative program path is resolved by the child's execve, which runs after
+    chdir(cwd), so against the configured working directory (decoy=True: against the caller's own one)."""
+    base = sh.bdir
+    if c["cwd"] is not None and not decoy:
+        base = os.path.join(sh.bdir, c["cwd"])
+    return os.path.join(base, c["bin"])
 
 
 def gen_config(r, sh, helper, cid, *, light=False):
@@ -379,6 +388,7 @@ def ser_case(c, sh):
             return {"rel": hx(b[len(sh.bdir) + 1:])}
         return {"abs": hx(b)}
     o = {k: c[k] for k in ("id", "kind", "helper", "code", "env_mode", "uid", "gid", "pg", "pre", "wait2", "trywait", "note", "shared", "holdstdin", "closed", "dump_id", "closures")}
+    o["decoy"] = bool(c.get("decoy"))
     o["bin"], o["cwd"] = path(c["bin"]), path(c["cwd"])
     o["args"] = [hx(a) for a in c["args"]]
     o["envs"] = [hx(a) for a in c["envs"]]
@@ -409,9 +419,12 @@ def deser_case(o, sh, helper):
     c["inj"] = [tuple(j) for j in o["inj"]]
     c["fault"] = tuple(o["fault"]) if o["fault"] else None
     if c["helper"]:
-        b = c["bin"] if c["bin"].startswith(b"/") else os.path.join(sh.bdir, c["bin"])
-        if os.path.basename(b).startswith(b"h.") and not os.path.lexists(b):
-            os.link(helper, b)
+        c["decoy"] = bool(o.get("decoy"))
+        for b in [bin_abs(c, sh)] + ([bin_abs(c, sh, decoy=True)] if c["decoy"] else []):
+            if os.path.basename(b).startswith(b"h.") and not os.path.lexists(b):
+                os.makedirs(os.path.dirname(b), exist_ok=True)
+                os.chmod(os.path.dirname(b), 0o777)
+                os.link(helper, b)
     prev = c
     c["followers"] = []
     for fo in o.get("followers") or []:
@@ -656,6 +669,38 @@ def gen_chains(r, sh, helper, next_id, n):
             prev = f
         out.append(c)
         out += c["followers"]
+    return out
+
+
+def gen_relbin(r, sh, helper, next_id, reps):
+    """A RELATIVE program path together with cwd(dir): the child chdir()s before it execs, so the path names the file
+    inside `dir`.  The file exists only there ("./x", "sub/x", "../dir/x"), or (decoy) a file of the same relative name
+    also exists in the caller's own working directory and must not be the one that runs (identity: /proc/self/exe and the
+    place of the dump).  With no other setting and with random other settings."""
+    out = []
+    d = sh.bdir
+    for rep_i in range(reps):
+        for cwd in (os.path.join(d, b"cwd-a"), os.path.join(d, b"cwd b\xff\xfe"), b"cwd-a", b"./cwd-a/"):
+            for form, decoy in (("./", False), ("sub/", False), ("../", False), ("./", True), ("sub/", True)):
+                plain = rep_i == 0 and form != "../"
+                c = gen_config(r, sh, helper, next_id(), light=plain or r.random() < 0.5)
+                name = b"h.%d.%d" % (c["id"], c["code"])
+                os.unlink(os.path.join(d, name))
+                if plain:
+                    c["args"], c["env_mode"], c["envs"], c["uid"], c["gid"], c["pg"] = [], "default", [], None, None, None
+                    c["io"], c["shared"], c["closures"], c["holdstdin"] = [None, "p", None], None, [], False
+                cwd_abs = os.path.normpath(os.path.join(d, cwd))
+                c["cwd"] = cwd
+                c["bin"] = {"./": b"./" + name, "sub/": b"sub/" + name,
+                            "../": b"../" + os.path.basename(cwd_abs) + b"/" + name}[form]
+                c["decoy"] = decoy
+                for b in [bin_abs(c, sh)] + ([bin_abs(c, sh, decoy=True)] if decoy else []):
+                    os.makedirs(os.path.dirname(b), exist_ok=True)
+                    os.chmod(os.path.dirname(b), 0o777)
+                    os.link(helper, b)
+                c["note"] = (c["note"] + " " if c["note"] else "") + "relative program %s inside cwd%s%s" % (
+                    form, " (same name, other file, in the caller's cwd)" if decoy else " only", "" if plain else " +settings")
+                out.append(c)
     return out
 
 
@@ -1319,6 +1364,9 @@ class Judge:
             return "judged"
         dump_path = self.dump_path(c)
         d = parse_dump(dump_path)
+        if d is None and c.get("decoy"):
+            # nothing was written next to the configured program: did the same-named file of the caller's cwd run?
+            d = parse_dump(self.dump_path(c, decoy=True))
         if ch["exit"] is None:
             return "incomplete"
         if d is None or not d["done"]:
@@ -1328,7 +1376,7 @@ class Judge:
         if d["args"] != exp_argv:
             bad.append(("child/argv-mismatch", "argv: expected %d entries %r..., helper saw %d entries %r..."
                         % (len(exp_argv), exp_argv[:4], len(d["args"]), d["args"][:4])))
-        exe_exp = os.path.realpath(os.path.join(self.sh.bdir, c["bin"]))
+        exe_exp = os.path.realpath(bin_abs(c, self.sh))
         if d.get("exe") != exe_exp:
             bad.append(("child/program-mismatch", "exe %r != %r" % (d.get("exe"), exe_exp)))
         # environment
@@ -1530,13 +1578,13 @@ class Judge:
         ck.note_distinct("%s/ok/cwd-%s/uid-%s/gid-%s/pg-%s/pre-%d" % (
             self.fl, "set" if c["cwd"] is not None else "unset", c["uid"], c["gid"], c["pg"], len(ncl)))
         ck.count("spawns_ok_verified")
+        if c["cwd"] is not None and not c["bin"].startswith(b"/"):
+            ck.count("spawns_ok_verified/relative-program-inside-cwd" + ("-decoy-in-callers-cwd" if c.get("decoy") else ""))
         self.sample(c, "Ok: helper dump, stdio identities, round trip and wait status match (exit code %d)" % c["code"])
         return "judged"
 
-    def dump_path(self, c):
-        b = c["bin"]
-        if not b.startswith(b"/"):
-            b = os.path.join(self.sh.bdir, b)
+    def dump_path(self, c, decoy=False):
+        b = bin_abs(c, self.sh, decoy)
         return os.path.realpath(b) + b".dump" + (b".%d" % c["dump_id"] if c.get("dump_id") is not None else b"")
 
     def sample(self, c, outcome):
@@ -1639,7 +1687,8 @@ def _run(ck, quick, sysmon, helper_src, flavours, root, replay):
             sh.cases += gen_shared_stdio(r, sh, helper_b, next_id, 2 if quick else 6)
             shards.append(sh)
             for gen, reps in ((gen_chains, 24 if quick else 200), (gen_hold_stdin, 2 if quick else 10),
-                              (gen_closed_std, 1 if quick else 4)):
+                              (gen_closed_std, 1 if quick else 4),
+                              (gen_relbin, 1 if quick else 4)):
                 sh = Shard(root, fl, idx)
                 idx += 1
                 sh.probe_env = probe_env_for(r)
